@@ -52,6 +52,26 @@ SPECS = [
          text='A<m metal:define-macro="a-b">x</m><n metal:define-macro="a_b"><i tal:content="1 +"/></n>B',
          options={'strict': True},
          expect_error={'class': 'ExpressionError', 'token': '1 +'}, serves=['C19', 'C11']),
+    dict(id='S-Deferred-switch',
+         # non-strict: an invalid expression is deferred wherever it stands -- also as the operand of a
+         # tal:switch that has cases, or in a dict-valued tal:attributes entry next to a static attribute
+         text='A<ul tal:switch="1 +"><li tal:case="e2">x</li></ul><a class="c" tal:attributes="dict(h=1">y</a>B',
+         options={'strict': False}, static_only=True, serves=['C19']),
+    dict(id='S-TextMode-colliding-names',
+         # each ${...} is "replaced by the value of exactly that expression": also when two expression
+         # texts differ only in characters that are not word characters
+         text="a ${e1}|${'x-y'}|${'x_y'}|${'x y'}", cls='PageTextTemplate',
+         ensures=["evals(1) == 1",
+                  "not is_exact(val(1), str) or S() == S0() + 'a ' + text(val(1)) + '|x-y|x_y|x y'"],
+         raises={'*': {'ensures': ["raised('e1') or ext_count() > 0 or translate_calls() > 0"]}},
+         serves=['C20', 'C06']),
+    dict(id='S-Bom-positions',
+         # a str template that starts with U+FEFF: the mark is a character of the source like any other;
+         # recorded positions (token table: static checks) refer to the text as given
+         text='\ufeffA<p>${e1}</p>\n<i tal:content="e2"/>B',
+         ensures=["trace('e1', 'e2')"],
+         raises={'*': {'ensures': ["raised('e1') or raised('e2')"]}},
+         serves=['C12', 'C11']),
     dict(id='S-TextMode', text='a ${e1} $$ <b> &amp; x', cls='PageTextTemplate',
          ensures=[
              "evals(1) == 1",
